@@ -640,6 +640,8 @@ def run_function(S, func, args=None, selfobj=None):
         bound[p] = ("param", p)
     if func.vararg:
         bound[func.vararg] = ("param", func.vararg)
+    if func.kwarg:
+        bound[func.kwarg] = ("param", func.kwarg)
     if args:
         bound.update(args)
     if func.is_method and selfobj is None:
